@@ -445,12 +445,63 @@ pub fn run(case: &Case) -> CaseReport {
                 rep.count("arbitrary_texts_parsed", 1);
             }
         }
+        // (3b) a log the reader accepts is a log value like any other: writing it and
+        // reading it back must give the same log (parse -> print -> parse)
+        if let Ok(Ok(l1)) = guarded(|| AuthorshipLog::deserialize_from_string(raw).map_err(|e| e.to_string())) {
+            rep.count("arbitrary_texts_accepted", 1);
+            let cls = l1.attestations.iter().find_map(|f| path_class(&f.file_path));
+            let sig2 = |g: &str| match cls {
+                Some(c) => format!("C17:{c}"),
+                None => format!("C17:{g}"),
+            };
+            match guarded(|| l1.serialize_to_string().map_err(|e| e.to_string())) {
+                Err(p) => rep.violate(sig2("serialize-panicked-on-parsed-log"), format!("panic: {p}; input {:?}", head(raw))),
+                Ok(Err(e)) => rep.violate(sig2("serialize-failed-on-parsed-log"), format!("{e}; input {:?}", head(raw))),
+                Ok(Ok(t1)) => match guarded(|| AuthorshipLog::deserialize_from_string(&t1).map_err(|e| e.to_string())) {
+                    Err(p) => rep.violate(sig2("reparse-panicked"), format!("panic: {p}; input {:?}", head(raw))),
+                    Ok(Err(e)) => rep.violate(sig2("parsed-log-does-not-survive-rewrite"), format!("reparse failed: {e}; input {:?} rewritten {:?}", head(raw), head(&t1))),
+                    Ok(Ok(l2)) => {
+                        if canon_log(&l1) != canon_log(&l2) || l1.metadata != l2.metadata {
+                            rep.violate(sig2("parsed-log-does-not-survive-rewrite"), format!("input {:?} rewritten {:?}", head(raw), head(&t1)));
+                        }
+                    }
+                },
+            }
+        }
         match guarded(|| rexp::remap_note_content_for_target_commit(raw, &case.target)) {
             Err(p) => rep.violate("C17:remap-panicked-on-arbitrary-text", format!("panic: {p}; input {:?}", raw)),
             Ok(_) => {}
         }
     }
     rep
+}
+
+/// Byte-level decoding for the coverage-guided target: the bytes are the note text.
+pub fn case_from_bytes(data: &[u8]) -> Case {
+    Case {
+        files: vec![],
+        base: "0".repeat(40),
+        git_ai_version: None,
+        prompts: vec![],
+        target: "1".repeat(40),
+        raw: Some(String::from_utf8_lossy(data).into_owned()),
+    }
+}
+
+/// Serialised logs of generated cases: seeds for the coverage-guided target.
+pub fn seed_texts(n: usize) -> Vec<String> {
+    use proptest::strategy::ValueTree;
+    use proptest::test_runner::{Config, RngSeed, TestRunner};
+    let mut r = TestRunner::new(Config { rng_seed: RngSeed::Fixed(17), failure_persistence: None, ..Config::default() });
+    let st = strategy();
+    let mut out = Vec::new();
+    while out.len() < n {
+        let c = st.new_tree(&mut r).unwrap().current();
+        if let Ok(t) = build_log(&c).serialize_to_string() {
+            out.push(t);
+        }
+    }
+    out
 }
 
 fn head(s: &str) -> String {
